@@ -128,7 +128,8 @@ _vals, _errs = _extract()
 _errs = _errs + _callsites()
 _pre = ('#include <stddef.h>\n#include <supla_esp.h>\n#include <supla_esp_gpio.h>\n#include <supla_esp_rs_fb.h>\n'
         + ''.join('#error RsSpacingConsts: %s\n' % e.replace('\n', ' ') for e in _errs))
-_names = ['RS_DELAY_THRESHOLD', 'RS_SETTLE_US', 'RS_ORDER_GUARD_STOP', 'RS_ORDER_GUARD_START', 'RELAY_PRE_US', 'RELAY_RETRY_US', 'RELAY_POST_US']
+# (RS_ORDER_GUARD_* are computed for information only; they are not emitted so that the generated file is the same before/after the fix)
+_names = ['RS_DELAY_THRESHOLD', 'RS_SETTLE_US', 'RELAY_PRE_US', 'RELAY_RETRY_US', 'RELAY_POST_US']
 
 G.GROUPS['RsSpacingConsts'] = dict(
     pre=_pre,
